@@ -554,3 +554,18 @@ func init() {
 	}
 	pureExterns["bytes.Index"] = true
 }
+
+// os.Remove / (*os.File).Name / Close: ghostint("removed") records that a file was removed.
+func init() {
+	externs["os.Remove"] = func(c *FnCtx, st *State, call *ast.CallExpr, recv *Val, args []Val) Val {
+		c.ghostIntSet(st, "removed", "1")
+		return Val{K: KIfc, S: c.fresh("err", "Ifc")}
+	}
+	externs["(*os.File).Name"] = func(c *FnCtx, st *State, call *ast.CallExpr, recv *Val, args []Val) Val {
+		return Val{K: KStr, S: c.fresh("name", "Str"), T: types.Typ[types.String]}
+	}
+	pureExterns["(*os.File).Name"] = true
+	externs["(*os.File).Close"] = func(c *FnCtx, st *State, call *ast.CallExpr, recv *Val, args []Val) Val {
+		return Val{K: KIfc, S: c.fresh("err", "Ifc")}
+	}
+}
